@@ -1,5 +1,6 @@
 import SCP.C01
 import SCP.C02
+import SCP.C03
 import SCP.C04
 import SCP.C05
 import SCP.C06
